@@ -182,4 +182,30 @@ theorem window_ieee (c r : ℚ) (inSize : ℕ) (hr : 0 ≤ r) (hin : c - r ≤ i
          Fir.Proofs.span_le_window (flP 53) hmono c r inSize hr e1 e2⟩
 end IeeeInstances
 
+/-! ### the two documented head-room bits are what keeps the accumulators from overflowing -/
+
+/-- 8-bit formats: with a precision below `PRECISION_BITS` (translated: 32 - 8 - 2) and coefficients whose
+    absolute values sum to at most `4·2^p` (normalised weights with `Σ|w| ≤ 4`), the `i32` accumulator of
+    every window stays inside `i32` - the premise of `accOK8_of_abs_sum` -/
+theorem headroom_u8 (p : Nat) (hp : p < PRECISION_BITS) (S : Int) (hS : S ≤ 4 * 2 ^ p) :
+    255 * S + 2 ^ (p - 1) < (2 : Int) ^ 31 := by
+  have hp' : p ≤ 21 := by unfold PRECISION_BITS at hp; omega
+  have h1 : (2 : Int) ^ p ≤ 2 ^ 21 := Fir.Proofs.pow2_le p 21 hp'
+  have h2 : (2 : Int) ^ (p - 1) ≤ 2 ^ p := Fir.Proofs.pow2_le (p - 1) p (by omega)
+  generalize (2 : Int) ^ p = P at *
+  generalize (2 : Int) ^ (p - 1) = Q at *
+  norm_num at h1 ⊢
+  omega
+
+/-- 16-bit formats: the same with `PRECISION16_BITS` (translated: 64 - 16 - 2) and the `i64` accumulator -/
+theorem headroom_u16 (p : Nat) (hp : p < PRECISION16_BITS) (S : Int) (hS : S ≤ 4 * 2 ^ p) :
+    65535 * S + 2 ^ (p - 1) < (2 : Int) ^ 63 := by
+  have hp' : p ≤ 45 := by unfold PRECISION16_BITS at hp; omega
+  have h1 : (2 : Int) ^ p ≤ 2 ^ 45 := Fir.Proofs.pow2_le p 45 hp'
+  have h2 : (2 : Int) ^ (p - 1) ≤ 2 ^ p := Fir.Proofs.pow2_le (p - 1) p (by omega)
+  generalize (2 : Int) ^ p = P at *
+  generalize (2 : Int) ^ (p - 1) = Q at *
+  norm_num at h1 ⊢
+  omega
+
 end Fir.C03
